@@ -1577,9 +1577,15 @@ class Color(object):
     def parse_color_rgbp(values):
         """Parse SVG color, RGB percent value declarations"""
         ratio = 255.0 / 100.0
-        r = round(float(values[0]) * ratio)
-        g = round(float(values[1]) * ratio)
-        b = round(float(values[2]) * ratio)
+
+        def channel(text):
+            # Percentages outside 0..100 clamp; an infinite one must clamp before it is rounded.
+            v = float(text) * ratio
+            return 255 if v > 255 else 0 if v < 0 else round(v)
+
+        r = channel(values[0])
+        g = channel(values[1])
+        b = channel(values[2])
         if values[3] is not None:
             opacity = float(values[3])
         else:
@@ -1702,6 +1708,11 @@ class Color(object):
     def opacity(self, opacity):
         if self.value is None:
             raise ValueError
+        # Clamp first: rounding an infinite opacity raises OverflowError.
+        if opacity > 1:
+            opacity = 1.0
+        if opacity < 0:
+            opacity = 0.0
         a = int(round(opacity * 255.0))
         a = Color.crimp(a)
         self.alpha = a
